@@ -182,7 +182,7 @@ class Observation:
         self.warnings = []  # (index in events, described error)
 
 
-def run_decode(tname_or_type, data, command_code=None, enc=None, strict=True, source=None, max_events=None, marshal=None, **extra):
+def run_decode(tname_or_type, data, command_code=None, enc=None, strict=True, source=None, max_events=None, marshal=None, root="", **extra):
     """Run the library's decoder to its end.  Returns an Observation; never raises."""
     tpm_type = lib_type(tname_or_type) if isinstance(tname_or_type, str) else tname_or_type
     obs = Observation()
@@ -192,6 +192,10 @@ def run_decode(tname_or_type, data, command_code=None, enc=None, strict=True, so
         kwargs["command_code"] = TPM_CC(command_code) if isinstance(command_code, int) else command_code
     if enc:
         kwargs["parameter_encryption"] = True
+    if root:
+        from tpmstream.common.path import Path
+
+        kwargs["root_path"] = Path.from_string(root)
     kwargs.update(extra)
     gen = (marshal or Binary.marshal)(**kwargs)
     limit = max_events if max_events is not None else 50 * (len(data) + 4) + 1000
@@ -214,6 +218,9 @@ def run_decode(tname_or_type, data, command_code=None, enc=None, strict=True, so
     except DOCUMENTED as err:
         d = describe_error(err)
         if "remaining" not in d and isinstance(err, E.ConstraintViolatedError):
+            # a caller may look at the attribute more than once (is it there? log it, then use it): the value used is the
+            # one read last
+            _ = err.bytes_remaining is None
             rem = err.bytes_remaining
             try:
                 d["remaining"] = None if rem is None else bytes(rem)
